@@ -2,7 +2,7 @@
 import numpy as np
 import impl, cases
 from gen import grid, data, unc, material
-from .common import tolist, Unchanged
+from .common import tolist, Unchanged, keyword_call_differs
 
 LEAN = "PystogVerif.Props.C09"
 RSP, QSP = ["g", "G", "GK"], ["F", "S", "FK", "DCS"]
@@ -56,6 +56,9 @@ def evaluate(case):
                 if df is None:
                     dfi = None
                 o = getattr(ff, f"{X}_using_{Y}")(r, gi, q, fi, cutoff, dgi, dfi, **kw)
+                kf = keyword_call_differs(ff, f"FourierFilter.{X}_using_{Y}", [r, gi, q, fi, cutoff, dgi, dfi], kw, o)
+                if kf:
+                    fails.append(kf)
                 if guard.violated():
                     return [f"{X}_using_{Y}: modifies an input array in place, so a later variant fed the same arrays sees already-filtered data"]
                 q_ft, rem, qc, cor, ro, go, drem, dcor, dgo = o
